@@ -49,7 +49,15 @@ META = {
 
 KINDS = {"cb": (0, "c", False), "cu": (2, "c", True), "sb": (1, "s", False), "su": (3, "s", True)}
 WHATS = ["data", "data_fin", "fin", "reset"]
-RESET_CODE = {"c": 0x2A, "s": 0x133}
+# application error codes are 62-bit integers, 0 is a perfectly good one (e.g. H3_NO_ERROR-like "no error" resets):
+# the code depends on (stream kind, sending side, form of the event) so that 0, 1, ordinary and the largest value
+# are all exercised without enlarging the state space
+_CODES = [0, 1, 0x2A, 0x133, (1 << 62) - 1]
+
+
+def reset_code(kind, side, what):
+    k = sorted(KINDS).index(kind) * 2 + (1 if side == "s" else 0) + (3 if what == "data_reset" else 0)
+    return _CODES[k % len(_CODES)]
 NEED = {"raw": 0, "ask1": 1, "ask2": 2}  # DataReceived events before the protocol is decided
 
 
@@ -266,17 +274,19 @@ class Spec:
             if w == "data_reset":
                 # STREAM and RESET_STREAM frames of one datagram: QuicLayer hands both events to this layer
                 # back to back, before any hook of the first one can have completed
-                exp.append(["reset", RESET_CODE[side]])
+                code = reset_code(ls.kind, side, w)
+                exp.append(["reset", code])
                 ls.dirs[side] = "reset"
-                ev2 = QuicStreamReset(conn, sid, RESET_CODE[side])
+                ev2 = QuicStreamReset(conn, sid, code)
         elif w == "fin":
             exp.append(["fin"])
             ls.dirs[side] = "fin"
             ev = QuicStreamDataReceived(conn, sid, b"", end_stream=True)
         else:
-            exp.append(["reset", RESET_CODE[side]])
+            code = reset_code(ls.kind, side, w)
+            exp.append(["reset", code])
             ls.dirs[side] = "reset"
-            ev = QuicStreamReset(conn, sid, RESET_CODE[side])
+            ev = QuicStreamReset(conn, sid, code)
         # relays are owed from the moment the protocol is decided
         for e in exp:
             ls.pending.append([side] + e)
